@@ -80,11 +80,7 @@ func (c *Ctx) infoFor(fn *ssa.Function) *fnInfo {
 }
 
 func (c *Ctx) unsupported(msg string) {
-	where := ""
-	if c.cur != nil {
-		where = " in " + c.cur.fn.String()
-	}
-	panic(pathEnd{"unsupported", msg + where})
+	panic(pathEnd{"unsupported", msg + " @" + c.where()})
 }
 
 func (c *Ctx) goPanic(msg string, val Value) {
@@ -229,6 +225,10 @@ func (c *Ctx) runFrame(fr *frame) (result Value) {
 		}
 		gp, ok := r.(*goPanicSig)
 		if !ok {
+			if _, isEnd := r.(pathEnd); !isEnd && c.extra["internalWhere"] == nil {
+				c.cur = fr
+				c.extra["internalWhere"] = c.where()
+			}
 			panic(r) // pathEnd or engine bug
 		}
 		c.cur = fr
@@ -430,6 +430,13 @@ func (c *Ctx) exec(fr *frame, in ssa.Instruction) {
 	case *ssa.BinOp:
 		c.set(fr, x, c.binop(x.Op, c.get(fr, x.X), c.get(fr, x.Y), x.X.Type(), x.Y.Type()))
 	case *ssa.Store:
+		if g, ok := x.Addr.(*ssa.Global); ok {
+			if _, seen := c.globals[g]; !seen {
+				// whole-variable overwrite before any read: the real initialiser is never evaluated
+				t := g.Type().(*types.Pointer).Elem()
+				c.globals[g] = c.newObject(c.zero(t), t, g.String())
+			}
+		}
 		p := c.get(fr, x.Addr).(PtrV)
 		c.checkGuard(p, true)
 		c.store(p, c.get(fr, x.Val))
@@ -455,6 +462,13 @@ func (c *Ctx) exec(fr *frame, in ssa.Instruction) {
 	case *ssa.Defer:
 		c.doDefer(fr, x)
 	case *ssa.Go:
+		// the only tolerated go statement: observe.(*base).GoNotify, executed as a synchronous Notify
+		if o := fr.fn.Origin(); (o != nil && o.String() == "(*github.com/synnaxlabs/x/observe.base).GoNotify") ||
+			strings.HasPrefix(fr.fn.String(), "(*github.com/synnaxlabs/x/observe.base[") && strings.HasSuffix(fr.fn.String(), ").GoNotify") {
+			c.noteFn("intrinsic:go-as-sync-call in " + fnKey(fr.fn))
+			c.doCall(fr, &x.Call, x)
+			return
+		}
 		c.unsupported("go statement")
 	case *ssa.Extract:
 		c.set(fr, x, c.get(fr, x.Tuple).(TupleV)[x.Index])
